@@ -313,9 +313,11 @@ def r2(run, ctx):
     h = types.get('hooks.*')
     if h:
         txt = ' '.join(norm_text(s) for s in h['body'])
-        run.check('R2', "val.split(',', 1)" in txt and 'val.append(False)' in txt and
-                  'val[1] = to_bool(val[1])' in txt, 'hook flag: optional, to_bool, default False',
-                  f, h['test'])
+        run.check('R2', astq.has_pattern(txt, "$v = [$e.strip() for $e in val.split(',', 1)]") and
+                  astq.has_pattern(txt, '$v.append(False)') and
+                  astq.has_pattern(txt, '$v[1] = to_bool($v[1])') and
+                  astq.has_pattern(txt, "watcher['hooks'][$h] = $v"),
+                  'hook flag: optional, to_bool, default False', f, h['test'])
     # DefaultConfigParser.dget conversions: every value that can be returned, with the
     # condition under which it is
     from sa.dataflow import reaching_defs
